@@ -2,6 +2,7 @@ package bloomsearch
 
 import (
 	"math"
+	"reflect"
 )
 
 // MinMaxIndex records the observed numeric range of a field. Values outside
@@ -30,6 +31,9 @@ func ConvertToMinMaxInt64(value any) (minVal int64, maxVal int64, ok bool) {
 	case float64:
 		return floatToMinMaxInt64(v)
 	default:
+		if f, isFloat := namedFloatValue(value); isFloat {
+			return floatToMinMaxInt64(f)
+		}
 		intVal, isInt := toInt64(value)
 		if !isInt {
 			return 0, 0, false
@@ -56,6 +60,9 @@ func ConvertToInt64(value any) (int64, bool) {
 	case float64:
 		return floatToInt64(v)
 	default:
+		if f, isFloat := namedFloatValue(value); isFloat {
+			return floatToInt64(f)
+		}
 		return toInt64(value)
 	}
 }
@@ -105,8 +112,28 @@ func toInt64(value any) (int64, bool) {
 	case uint64:
 		return clampUint64ToInt64(v), true
 	default:
+		// Named integer types (time.Duration, type ID uint64, ...) and uintptr
+		// match none of the cases above; convert them by kind, with the same
+		// clamping, so their values are indexed like any other integer.
+		rv := reflect.ValueOf(value)
+		switch rv.Kind() {
+		case reflect.Int, reflect.Int8, reflect.Int16, reflect.Int32, reflect.Int64:
+			return rv.Int(), true
+		case reflect.Uint, reflect.Uint8, reflect.Uint16, reflect.Uint32, reflect.Uint64, reflect.Uintptr:
+			return clampUint64ToInt64(rv.Uint()), true
+		}
 		return 0, false
 	}
+}
+
+// namedFloatValue returns the value of a named floating-point type (type Score
+// float64, ...), which the float32/float64 cases of a type switch do not match.
+func namedFloatValue(value any) (float64, bool) {
+	rv := reflect.ValueOf(value)
+	if k := rv.Kind(); k == reflect.Float32 || k == reflect.Float64 {
+		return rv.Float(), true
+	}
+	return 0, false
 }
 
 func clampUint64ToInt64(v uint64) int64 {
